@@ -141,6 +141,7 @@ func (c *tlogCase) ask(target int, nep11 bool, acc util.Uint160, ts uint64) ([][
 	if knownSig != "" {
 		c.violation(knownSig, fmt.Sprintf("%s (keys are kind|account|timestamp|index, values batch versions): model=%v mem=%v bolt=%v leveldb=%v", shown["query"], shown["model"], shown["mem"], shown["bolt"], shown["leveldb"]), shown)
 	}
+	c.suspect(fails)
 	if len(fails) > 0 {
 		var first string
 		for _, k := range backendKinds {
